@@ -22,7 +22,7 @@ from vlib import advexec, gen, runner, storetrace
 
 PROPERTY = "C04"
 LEVEL = "exploration"
-TIMEOUT = {"quick": 900, "thorough": 5400}
+TIMEOUT = {"quick": 1500, "thorough": 7200}
 RULE = (
     "recipes from vlib.gen.Gen (fusion-relevant shapes, reductions, rechunks, multi-output ops) x optimize_graph {on, off} x "
     "reserved_mem {0, small} x allowed_mem in {P-1, P, P+1} where P is the maximum projected memory of the plan finalized under "
